@@ -285,6 +285,8 @@ enum IOp {
     Nth0,
     Nth1,
     Nth2,
+    /// nth(huge): usize::MAX, usize::MAX / entsize, usize::MAX / entsize + 1, 2^63
+    NthHuge(u8),
     Get(u8),
     Len,
     FreshIterFirst,
@@ -293,7 +295,7 @@ enum IOp {
     Last,
     Count,
 }
-const IOPS: [IOp; 13] = [IOp::Next, IOp::Nth0, IOp::Nth1, IOp::Nth2, IOp::Get(0), IOp::Get(1), IOp::Get(2), IOp::Get(3), IOp::Len, IOp::FreshIterFirst, IOp::SizeHintLower, IOp::Last, IOp::Count];
+const IOPS: [IOp; 17] = [IOp::Next, IOp::Nth0, IOp::Nth1, IOp::Nth2, IOp::NthHuge(0), IOp::NthHuge(1), IOp::NthHuge(2), IOp::NthHuge(3), IOp::Get(0), IOp::Get(1), IOp::Get(2), IOp::Get(3), IOp::Len, IOp::FreshIterFirst, IOp::SizeHintLower, IOp::Last, IOp::Count];
 
 /// Run a history on a fresh iterator; returns (results, fingerprint of the iterator's Debug text).
 fn run_hist<P: ParseAt + Dig + std::fmt::Debug>(enc: Enc, data: &[u8], hist: &[IOp]) -> (Vec<Option<u64>>, u64) {
@@ -314,6 +316,11 @@ fn run_hist<P: ParseAt + Dig + std::fmt::Debug>(enc: Enc, data: &[u8], hist: &[I
             IOp::Nth0 => it.nth(0).map(|x| x.dig()),
             IOp::Nth1 => it.nth(1).map(|x| x.dig()),
             IOp::Nth2 => it.nth(2).map(|x| x.dig()),
+            IOp::NthHuge(k) => {
+                let ent = P::size_for(c).max(1);
+                let n = [usize::MAX, usize::MAX / ent, usize::MAX / ent + 1, 1usize << 63][*k as usize];
+                it.nth(n).map(|x| x.dig())
+            }
             IOp::Get(i) => t.get(*i as usize).ok().map(|x| x.dig()),
             IOp::Len => Some(t.len() as u64 * 2 + t.is_empty() as u64),
             IOp::FreshIterFirst => t.iter().next().map(|x| x.dig()),
@@ -332,7 +339,7 @@ pub struct Sequences {
 }
 impl Space for Sequences {
     fn name(&self) -> String {
-        format!("explicit-state exploration of (ParsingTable, ParsingIterator) under ops {{next, nth(0), nth(1), nth(2), get(0..3), len/is_empty, fresh iter, size_hint}} to depth {} with de-duplication on the iterator's Debug state; 9 types x 4 encodings x byte lengths {{0, ent-1, ent, 2*ent+1, 3*ent, 4*ent-1}}", self.depth)
+        format!("explicit-state exploration of (ParsingTable, ParsingIterator) under ops {{next, nth(0), nth(1), nth(2), nth(usize::MAX), nth(usize::MAX/entsize), nth(usize::MAX/entsize+1), nth(2^63), get(0..3), len/is_empty, fresh iter, size_hint}} to depth {} with de-duplication on the iterator's Debug state; 9 types x 4 encodings x byte lengths {{0, ent-1, ent, 2*ent+1, 3*ent, 4*ent-1}}", self.depth)
     }
     fn size(&self) -> u64 {
         9 * 4 * 6
@@ -389,6 +396,10 @@ impl Space for Sequences {
                             cur = n;
                             None
                         }
+                    }
+                    IOp::NthHuge(_) => {
+                        cur = n;
+                        None
                     }
                     IOp::Get(i) => truth.get(i as usize).copied(),
                     IOp::Len => Some(n as u64 * 2 + (n == 0) as u64),
